@@ -248,13 +248,14 @@ def run_scenario(scn):
     if scn.get("prepredict") and "prepredict" not in hist:
         hist.insert(0, "prepredict")
     Xtr = Z[I_train].copy()
-    Ytr = np.array(scn["Y"], dtype=int)
+    loff = int(scn.get("label_offset", 0))         # class labels need not start at 0
+    Ytr = np.array(scn["Y"], dtype=int) + loff
     if "refit" in hist:
         try:
             if scn["kind"] == "unsup":
                 model.fit(P(Xtr.copy()), Ytr.copy(), np.array(I_train) if passI else None)
             else:
-                model.fit(P(Xtr.copy()), Ytr.copy(), P(Z[list(scn["I_val"])].copy()), np.array(scn["Yv"], dtype=int), np.array(I_train) if passI else None, np.array(list(scn["I_val"])) if passI else None)
+                model.fit(P(Xtr.copy()), Ytr.copy(), P(Z[list(scn["I_val"])].copy()), np.array(scn["Yv"], dtype=int) + loff, np.array(I_train) if passI else None, np.array(list(scn["I_val"])) if passI else None)
         except Exception as ex:
             return raised(ex)
     if "stale_matrix" in hist and scn["mode"] in ("metric", "table"):
@@ -271,7 +272,7 @@ def run_scenario(scn):
                     model.propagate_labels()
             else:
                 Iv = list(scn["I_val"])
-                model.fit(P(Xtr), Ytr.copy(), P(Z[Iv].copy()), np.array(scn["Yv"], dtype=int), np.array(I_train) if passI else None, np.array(Iv) if passI else None)
+                model.fit(P(Xtr), Ytr.copy(), P(Z[Iv].copy()), np.array(scn["Yv"], dtype=int) + loff, np.array(I_train) if passI else None, np.array(Iv) if passI else None)
                 if "prepredict" in hist and Q:
                     model.predict(P(Z[Q[::-1]].copy()), np.array(Q[::-1]) if passI else None)
         finally:
@@ -420,7 +421,7 @@ def run_scenario(scn):
         "prop": 1 if scn.get("propagate") else 0,
         "dens": [rk(v) for v in dens],
         "initc": [rk(v) for v in initc],
-        "L": [int(y) + 1 for y in scn["Y"]],
+        "L": [int(y) + 1 + loff for y in scn["Y"]],
         "Wd": [[rd(D[i, j]) if i != j else 0 for j in range(n)] for i in range(n)],
         "adj0": [[x + 1 for x in a] for a in adj0],
         "adj": [[x + 1 for x in a] for a in adj_used],
@@ -796,7 +797,7 @@ def episode_traces(scn, rec):
                 q.append({"dx": [rd(DQ[qi, t]) for t in range(n)], "rho": [(-7777777 if (math.isnan(v) or math.isinf(v)) else rk(v)) for v in rhos[qi]], "res": p["preds"][qi] + 1, "cl": -1, "pos": qi})
             out.append({
                 "n": n, "k": k, "kind": "knn", "direct": 1, "force": 0, "prop": 0,
-                "dens": [rk(v) for v in p["dens"]], "initc": [rk(v) for v in initc], "L": [int(y) + 1 for y in scn["Y"]],
+                "dens": [rk(v) for v in p["dens"]], "initc": [rk(v) for v in initc], "L": [int(y) + 1 + int(scn.get("label_offset", 0)) for y in scn["Y"]],
                 "Wd": [[0] * n for _ in range(n)], "adj0": [[] for _ in range(n)], "adj": [[] for _ in range(n)], "ev": [],
                 "fin": {"cost": [rk(v) for v in p["cost"]], "pred": [x + 1 for x in p["pred"]], "root": [x + 1 for x in p["root"]],
                         "plab": [x + 1 for x in p["plab"]], "clab": [0] * n, "nc": 0},
